@@ -154,6 +154,7 @@ where
                 //
                 // The constraint is not dropped until all variables converge into numbers.
                 Ok(state
+                    .with_constraint(self.clone())
                     .process_domain(
                         &wwalk,
                         Rc::new(FiniteDomain::from(
@@ -171,8 +172,7 @@ where
                         Rc::new(FiniteDomain::from(
                             wmin.saturating_sub(umax)..=wmax.saturating_sub(umin),
                         )),
-                    )?
-                    .with_constraint(self))
+                    )?)
             }
             // If all operators do not yet have domains, then keep the constraint until it can
             // be used to constrain some domains.
